@@ -138,6 +138,7 @@ type Report struct {
 	Rounds     int
 	Failed     string   // normalisation was abandoned (the source is analysed as written)
 	Renamed    []string // "known key -> new key": treated as the known function
+	Split      []string // "function.variable": local struct variables replaced by one variable per field
 }
 
 // Checker type-checks a set of files into a fresh package.
@@ -238,6 +239,14 @@ func Normalize(fset *token.FileSet, files []*ast.File, pkg *types.Package, info 
 		p2, i2, err := check(files)
 		if err != nil {
 			return nil, nil, n.rep, fmt.Errorf("normalised source does not type-check after round %d: %v", round+1, err)
+		}
+		n.pkg, n.info = p2, i2
+	}
+	// local struct variables that are only used field by field become one variable per field
+	if n.rep.Rounds > 0 && n.sroa() {
+		p2, i2, err := check(files)
+		if err != nil {
+			return nil, nil, n.rep, fmt.Errorf("normalised source does not type-check after splitting struct variables: %v", err)
 		}
 		n.pkg, n.info = p2, i2
 	}
@@ -914,7 +923,7 @@ func (n *norm) receiverExpr(call *ast.CallExpr, fn *types.Func) (ast.Expr, strin
 	if s == nil || s.Kind() != types.MethodVal {
 		return nil, "not a method value selection"
 	}
-	expr := copyExpr(sel.X)
+	expr := sel.X // the original node: its identifiers are known to the type information
 	t := n.info.TypeOf(sel.X)
 	path := s.Index()
 	for _, idx := range path[:len(path)-1] {
@@ -987,6 +996,19 @@ func (n *norm) expandMode(call *ast.CallExpr, fn *types.Func, d *ast.FuncDecl, c
 			if id, ok := ast.Unparen(val).(*ast.Ident); ok && n.aliasable(id, want) {
 				substIdent(nd.Body, name.Name, func() ast.Expr { return &ast.Ident{Name: id.Name} })
 				return
+			}
+			// the address of a local variable is the same whenever it is evaluated
+			if u, ok := ast.Unparen(val).(*ast.UnaryExpr); ok && u.Op == token.AND {
+				if id, ok := ast.Unparen(u.X).(*ast.Ident); ok {
+					if v, isVar := n.info.Uses[id].(*types.Var); isVar && !v.IsField() && v.Parent() != nil && v.Parent() != n.pkg.Scope() {
+						if pt, isP := want.(*types.Pointer); isP && types.Identical(pt.Elem(), v.Type()) {
+							substIdent(nd.Body, name.Name, func() ast.Expr {
+								return &ast.ParenExpr{X: &ast.UnaryExpr{Op: token.AND, X: &ast.Ident{Name: id.Name}}}
+							})
+							return
+						}
+					}
+				}
 			}
 		}
 		if name == nil || name.Name == "_" {
